@@ -90,6 +90,26 @@ def coq_case(case, rec, impl_res, grouped):
     )
 
 
+def coq_fcase(case, rec, impl_res, grouped):
+    """case with raw labels: the model factorises them itself (Factorize.v)"""
+    import math as _m
+    base = coq_case(case, rec, impl_res, grouped)
+    labs = []
+    for x in case["labels"]:
+        x = I.unf(x)
+        if isinstance(x, float) and _m.isnan(x):
+            labs.append("None")
+        else:
+            if float(x) != int(x):
+                raise ValueError("non-integer label")
+            labs.append(f"(Some {C.zlit(int(x))})")
+    ex = case.get("expected")
+    exl = "None" if ex is None else "(Some " + C.list_lit([C.zlit(int(e)) for e in ex]) + ")"
+    groups = [I.unf(g) for g in impl_res["groups"][0]]
+    return (f"mkFCase ({base}) {'true' if case.get('sort', True) else 'false'} {exl} {C.list_lit(labs)} "
+            f"{C.list_lit([C.zlit(int(g)) for g in groups])}")
+
+
 CASES_HEADER = (
     "From Coq Require Import ZArith String List Bool QArith.\n"
     "From Flox Require Import Val Agg Spec Pipeline Registry Cases.\n"
@@ -97,14 +117,15 @@ CASES_HEADER = (
 )
 
 
-def eval_cases(coq_cases, subdir, shard=400):
-    """coq_cases: list of Coq rcase literals. Returns (ok, model_fail_idx, spec_fail_idx, log)."""
+def eval_cases(coq_cases, subdir, shard=400, full=False):
+    """coq_cases: list of Coq rcase (or fcase when full) literals. Returns (ok, model_fail_idx, spec_fail_idx, log)."""
     texts = {}
+    ty, fm, fs = ("fcase", "fmodel_ok", "fspec_ok") if full else ("rcase", "model_ok", "spec_ok")
     for s in range(0, len(coq_cases), shard):
         body = ";\n  ".join(coq_cases[s:s + shard])
         texts[f"cases_{s // shard}"] = (
-            CASES_HEADER + f"Definition cases : list rcase := [\n  {body}\n].\n"
-            "Eval vm_compute in (failing model_ok cases).\nEval vm_compute in (failing spec_ok cases).\n"
+            CASES_HEADER + f"Definition cases : list {ty} := [\n  {body}\n].\n"
+            f"Eval vm_compute in (failing {fm} cases).\nEval vm_compute in (failing {fs} cases).\n"
         )
     res = C.coq_eval_many(texts, subdir)
     mfail, sfail, logs, ok = [], [], [], True
@@ -241,7 +262,7 @@ def run_pairs(cases, workers=None):
 
 
 def check_reduce_cases(run, cases, pid, nontrivial_fn, grouped_fn=None, vs_eager=False, model=True,
-                       oracle=True, internal_is_violation=True):
+                       oracle=True, internal_is_violation=True, full=False):
     """shared driver: flox vs oracle / eager (property level) and flox vs Coq model (correspondence)"""
     from . import findings as F
 
@@ -282,19 +303,19 @@ def check_reduce_cases(run, cases, pid, nontrivial_fn, grouped_fn=None, vs_eager
                                "eager": eager, "mismatches": bad[:5], "resolved": rec,
                                "how_to_run": f"./check {pid} --replay <this file>"}, tag="oracle")
             continue
-        if (model and impl_res["ok"] and "error" not in orc and "FILL" not in orc["result"]
+        if (model and impl_res["ok"] and "error" not in orc and "FILL" not in orc["result"] and not F.in_known_cell(case)
                 and "UNSPEC" not in orc["result"] and case["func"] in MODEL_FUNCS):
             grouped = grouped_fn(case, rec) if grouped_fn else False
             try:
-                coq_cases.append(coq_case(case, rec, impl_res, grouped))
+                coq_cases.append((coq_fcase if full else coq_case)(case, rec, impl_res, grouped))
                 coq_idx.append(i)
-            except (ValueError, KeyError):
+            except (ValueError, KeyError, IndexError, TypeError):
                 model_skipped += 1
     run.extra["refused_cases"] = run.extra.get("refused_cases", 0) + refused
     run.extra.setdefault("distribution_func_method_engine", {}).update(hist)
     if not model or not coq_cases:
         return
-    ok, mfail, sfail, log = eval_cases(coq_cases, pid)
+    ok, mfail, sfail, log = eval_cases(coq_cases, pid, full=full)
     run.extra["model_cases_evaluated_in_coq"] = run.extra.get("model_cases_evaluated_in_coq", 0) + len(coq_cases)
     run.extra["model_cases_skipped"] = run.extra.get("model_cases_skipped", 0) + model_skipped
     run.oblige("correspondence:K3 model(Cases.model_ok) == flox", ok and not mfail,
